@@ -416,7 +416,7 @@ Definition remove_all_instances (q : q1) (x : Z) : q1 * nat :=
 (* ---- operations involving a second Queue *)
 
 (* SwapContentsAux: [sm] lives in its in-object array, [lg] does not.  lg's in-object array receives
-   sm's items and becomes lg's array; sm adopts lg's array.  [With the repair of finding F14 the
+   sm's items and becomes lg's array; sm adopts lg's array.  [With the repair of finding F35 the
    vacated in-object slots of sm are reset for owning item types.] *)
 Definition swap_contents_aux (sm lg : q1) : q1 * q1 :=
   let ni := cnt sm in
@@ -470,7 +470,7 @@ Definition ends_with (t r : q1) : bool :=
 
 (* AddTailMulti / AddHeadMulti / InsertItemsAt (const Queue &, startIndex, numItems); [src] is the
    source's items (the destination's own items when it is passed as its own argument: the code then
-   works from a temporary copy -- always, with the repair of finding F15 for AddHeadMulti). *)
+   works from a temporary copy -- always, with the repair of finding F36 for AddHeadMulti). *)
 Definition add_tail_multi_q (t : q1) (src : list Z) (start num : nat) : q1 := add_tail_multi t (slice src start num).
 Definition add_head_multi_q (t : q1) (src : list Z) (start num : nat) : q1 := add_head_multi t (slice src start num).
 Definition insert_items_at_q (t : q1) (src : list Z) (idx start num : nat) : q1 :=
@@ -483,7 +483,7 @@ Definition insert_items_at_q (t : q1) (src : list Z) (idx start num : nat) : q1 
          else insert_items_general t i xs
   end.
 
-(* the un-repaired a.AddHeadMulti(a, start, num) when enough slots are unused (finding F15): the
+(* the un-repaired a.AddHeadMulti(a, start, num) when enough slots are unused (finding F36): the
    loop reads the queue it is prepending to, so every AddHead shifts the indices still to be read *)
 Definition add_head_multi_self_old (t : q1) (start num : nat) : q1 :=
   let n := Nat.min num (if start <? cnt t then cnt t - start else 0) in
